@@ -3,6 +3,7 @@ package vc
 import (
 	"fmt"
 	"go/types"
+	"math/big"
 	"strings"
 
 	"verif/internal/smt"
@@ -189,7 +190,7 @@ func init() {
 			key := args[0].Terms[0]
 			n := e.strLen(args[1].Terms[0])
 			cnt := e.writerCount(st, key)
-			e.ghostSet(st, gWData, key, c.App("arr.splice."+sortTag(smt.BV(8)), bytesInner, e.ghostGet(st, gWData, key), cnt, c.App("str.bytes", bytesInner, args[1].Terms[0]), c.BVLit64(0, 64), n))
+			e.ghostSet(st, gWData, key, c.App("arr.splice."+sortTag(smt.BV(8)), bytesInner, e.ghostGet(st, gWData, key), cnt, c.App("gs.bytes", bytesInner, args[1].Terms[0]), c.BVLit64(0, 64), n))
 			e.ghostSet(st, gCount, key, bvadd(c, cnt, n))
 			return Val{Typ: rt, Terms: []*smt.Term{n, c.IntLit(0), c.IntLit(0)}}
 		},
@@ -233,7 +234,7 @@ func init() {
 			key := args[0].Terms[0]
 			cnt := e.writerCount(st, key)
 			pos0 := e.ghostGet(st, gPos, key)
-			s := c.App("str.of", smt.Str, e.ghostGet(st, gWData, key), pos0, bvsub(c, cnt, pos0))
+			s := c.App("gs.of", smt.Str, e.ghostGet(st, gWData, key), pos0, bvsub(c, cnt, pos0))
 			e.assume(st, c.Eq(e.strLen(s), bvsub(c, cnt, pos0)))
 			return Val{Typ: rt, Terms: []*smt.Term{s}}
 		},
@@ -282,6 +283,38 @@ func init() {
 		e.assume(st, c.Implies(c.Not(c.Eq(v.Terms[0], c.IntLit(0))), c.Not(c.Eq(v.Terms[1], c.IntLit(0)))))
 		return v
 	}
+	callModels["strconv.ParseInt"] = func(e *Engine, f *frame, st *State, args []Val, rt types.Type, pos string) Val {
+		c := e.C
+		errv, okc := e.maybeError(st, errorType(), "parseint")
+		r := c.Fresh("parseint.v", smt.BV(64))
+		bits, isLit := args[2].Terms[0].BVValue()
+		base, isLit2 := args[1].Terms[0].BVValue()
+		if !isLit || !isLit2 || base.Int64() != 10 {
+			panic(reject("strconv.ParseInt with non-constant base/bitSize"))
+		}
+		b := uint(bits.Int64())
+		if b == 0 {
+			b = 64
+		}
+		lo := new(big.Int).Neg(new(big.Int).Lsh(big.NewInt(1), b-1))
+		hi := new(big.Int).Sub(new(big.Int).Lsh(big.NewInt(1), b-1), big.NewInt(1))
+		num := c.App("gs.num", smt.BV(mathW), args[0].Terms[0])
+		// success: the result is the number the string denotes and it fits bitSize
+		e.assume(st, c.Implies(okc, c.And(c.Eq(c.Extend(r, mathW, true), num), c.Op("bvsle", smt.Bool, c.BVLit(lo, 64), r), c.Op("bvsle", smt.Bool, r, c.BVLit(hi, 64)))))
+		return Val{Typ: rt, Terms: []*smt.Term{r, errv.Terms[0], errv.Terms[1]}}
+	}
+	callModels["strconv.FormatInt"] = func(e *Engine, f *frame, st *State, args []Val, rt types.Type, pos string) Val {
+		c := e.C
+		s := c.Fresh("formatint", smt.Str)
+		if base, ok := args[1].Terms[0].BVValue(); !ok || base.Int64() != 10 {
+			panic(reject("strconv.FormatInt with base != 10"))
+		}
+		e.assume(st, c.Eq(c.App("gs.num", smt.BV(mathW), s), c.Extend(args[0].Terms[0], mathW, true)))
+		l := e.strLen(s)
+		e.assume(st, c.And(bvle(c, c.BVLit64(1, 64), l), bvle(c, l, c.BVLit64(20, 64))))
+		return Val{Typ: rt, Terms: []*smt.Term{s}}
+	}
+	registerBigModels()
 	callModels["reflect.MakeSlice"] = func(e *Engine, f *frame, st *State, args []Val, rt types.Type, pos string) Val {
 		c := e.C
 		ln, cp := args[1].Terms[0], args[2].Terms[0]
